@@ -108,3 +108,18 @@ Theorem C04_thread_mesh_closed {T} `{Num T} : forall (d_min d_maj pitch length :
   (1 <= mesh_steps d_min d_maj pitch length segments)%Z ->
   closed_net (triples (snd (thread_mesh d_min d_maj pitch length segments li lo left)) 0).
 Proof. exact (@thread_mesh_closed T H). Qed.
+
+(* ---- outward: with the library's convention (faces clockwise seen from outside) the enclosed volume of a linear
+        extrusion of a clockwise profile (negative shoelace area) with positive height is positive, i.e. vol6 < 0 under
+        the counter-clockwise-positive convention of vol6; in particular every cylinder ---- *)
+From Coq Require Import Reals Lra.
+From SCAD Require Import Base.NumR Geom.Poly Geom.Dim2_proofs Geom.Volume_proofs.
+Theorem C04_linear_extrude_outward : forall (pts : list (pt2 R)) (h : R) ph, linear_extrude pts h = Some ph ->
+  complete (enumerate pts) -> (0 < h)%R -> (Poly.area2 pts < 0)%R -> (vol6 (fst ph) (snd ph) < 0)%R.
+Proof. intros pts h ph E Hc Hh Ha. rewrite (linear_extrude_volume pts h ph E Hc). nra. Qed.
+Theorem C04_cylinder_outward : forall (r h : R) (segments : Z) ph c, cylinder r h segments = Some ph -> circle r segments = Some c ->
+  complete (enumerate c) -> (3 <= segments)%Z -> r <> 0%R -> (0 < h)%R -> (vol6 (fst ph) (snd ph) < 0)%R.
+Proof.
+  intros r h segments ph c E Ec Hc Hs Hr Hh. unfold cylinder in E. rewrite Ec in E.
+  apply (C04_linear_extrude_outward c h ph E Hc Hh). exact (circle_clockwise r segments c Hs Hr Ec).
+Qed.
